@@ -270,7 +270,19 @@ def new_stats():
     return {"tags": {}, "depth": {}, "nest": {}, "place": {}, "spelling": {}, "tdoc": {}}
 
 
-def full_world(rng, wid, modroot="w", stats=None, full_annotations=False, spelling_mode=None):
+def add_impl_package(W):
+    """three @implements annotations that are wrong in the three ways (IMPL01, IMPL02, IMPL03) and one that is right"""
+    W.add_pkg("impl")
+    W.add_file("impl", "impl.go", ['"%s/d"' % W.root])
+    W.add("d", "types.go", Decl("Shape", ["type Shape interface {", "\tArea() int", "\tName() string", "}"]))
+    W.add("impl", "impl.go", Decl("Sq1", ["type Sq1 struct{} /*@%simpl1:impl01*/" % W.wid], doc=["// @implements nosuch.Shape"]))
+    W.add("impl", "impl.go", Decl("Sq2", ["type Sq2 struct{} /*@%simpl2:impl02*/" % W.wid], doc=["// @implements d.Missing"]))
+    W.add("impl", "impl.go", Decl("Sq3", ["type Sq3 struct{} /*@%simpl3:impl03*/" % W.wid, "func (Sq3) Area() int { return 1 }"], doc=["// @implements d.Shape"]))
+    W.add("impl", "impl.go", Decl("Sq4", ["type Sq4 struct{} /*@%simpl4:impl-ok*/" % W.wid, "func (Sq4) Area() int { return 1 }", "func (Sq4) Name() string { return \"\" }"],
+                                  doc=["// @implements d.Shape"]))
+
+
+def full_world(rng, wid, modroot="w", stats=None, full_annotations=False, spelling_mode=None, with_impl=False):
     W = World(wid, "%s/%s" % (modroot, wid))
     gen_decl_package(W, rng, full=full_annotations)
     W.add_pkg("m")
@@ -289,6 +301,8 @@ def full_world(rng, wid, modroot="w", stats=None, full_annotations=False, spelli
     if rng.random() < 0.5:
         add_user_package(W, rng, "bypath", rng.choice(["bypath", "other"]), spelling(W, "direct"), 2, "b", stats=stats)
     add_user_package(W, rng, "d", "d", spelling(W, "self"), 3, "s", test_file=rng.random() < 0.3, stats=stats)
+    if with_impl:
+        add_impl_package(W)
     return W
 
 
